@@ -46,6 +46,7 @@ type Ctx struct {
 	NFuncs  int
 	LoadDur time.Duration
 	Overlay map[string][]byte // non-nil for the normalised view: file -> replaced content
+	RenameNotes []string      // renames that were undone before analysis (unrename.go)
 }
 
 func goEnv(extra ...string) []string {
@@ -66,7 +67,13 @@ func goEnv(extra ...string) []string {
 // Load type-checks every package of the module at repo for the given build
 // configuration and builds SSA for the module's own packages.
 func Load(repo string, bc BuildConfig) (*Ctx, error) {
-	return LoadOverlay(repo, bc, nil)
+	c, err := LoadOverlay(repo, bc, nil)
+	if err != nil {
+		return nil, err
+	}
+	nc, notes := unrenamed(c)
+	nc.RenameNotes = notes
+	return nc, nil
 }
 
 // LoadOverlay is Load with some files replaced by the given contents.
